@@ -246,4 +246,300 @@ example : linkParents [[65], [66], [67], [68], [69], [70]] [[66], [67], [], [68]
     = [some 1, some 2, none, none, some 5, none] := by
   simp [linkParents, findLastIdx, reaches, List.range, List.range.loop]
 
+/-! ## the fuel of the cycle check is never exhausted -/
+
+/-- `m` steps along the parent links -/
+def walk (parents : List (Option Nat)) : Nat → Nat → Option Nat
+  | 0, p => some p
+  | m + 1, p => (parents.getD p none).bind (walk parents m)
+
+theorem ends_eq_walk (parents : List (Option Nat)) (m p : Nat) : ends parents m p = (walk parents m p).isNone := by
+  induction m generalizing p with
+  | zero => rfl
+  | succ m ih =>
+    unfold ends walk
+    cases parents.getD p none with
+    | none => rfl
+    | some q => simp [ih]
+
+theorem walk_add (parents : List (Option Nat)) (a b p : Nat) :
+    walk parents (a + b) p = (walk parents a p).bind (walk parents b) := by
+  induction a generalizing p with
+  | zero => simp [walk]
+  | succ a ih =>
+    have : a + 1 + b = (a + b) + 1 := by omega
+    rw [this]
+    simp only [walk]
+    cases parents.getD p none with
+    | none => rfl
+    | some q => simp [ih]
+
+theorem walk_none_mono (parents : List (Option Nat)) (a b p : Nat) (h : walk parents a p = none) :
+    walk parents (a + b) p = none := by rw [walk_add, h]; rfl
+
+/-- a node that comes back to itself never reaches a root -/
+theorem walk_periodic (parents : List (Option Nat)) (m x : Nat) (h : walk parents m x = some x) (j : Nat) :
+    walk parents (j * m) x = some x := by
+  induction j with
+  | zero => simp [walk]
+  | succ j ih =>
+    have : (j + 1) * m = j * m + m := by rw [Nat.succ_mul]
+    rw [this, walk_add, ih]; exact h
+
+theorem no_cycle_of_ends (parents : List (Option Nat)) (k m x : Nat) (hk : ends parents k x = true) (hm : 0 < m)
+    (h : walk parents m x = some x) : False := by
+  rw [ends_eq_walk] at hk
+  have hnone : walk parents k x = none := by simpa using hk
+  have hper := walk_periodic parents m x h k
+  have : k * m = k + (k * m - k) := by
+    have : k ≤ k * m := Nat.le_mul_of_pos_right k hm
+    omega
+  rw [this, walk_none_mono parents k _ x hnone] at hper
+  cases hper
+
+/-- a node with a successor is an index of the list -/
+theorem lt_length_of_getD_some (parents : List (Option Nat)) (x q : Nat) (h : parents.getD x none = some q) : x < parents.length := by
+  by_cases hx : x < parents.length
+  · exact hx
+  · simp [List.getD_eq_getElem?_getD, List.getElem?_eq_none (Nat.le_of_not_lt hx)] at h
+
+/-- pigeonhole: distinct numbers below `n` are at most `n` -/
+theorem length_le_of_nodup_lt : ∀ (n : Nat) (l : List Nat), l.Nodup → (∀ x ∈ l, x < n) → l.length ≤ n := by
+  intro n
+  induction n with
+  | zero =>
+    intro l _ h
+    cases l with
+    | nil => simp
+    | cons x r => exact absurd (h x (by simp)) (by omega)
+  | succ n ih =>
+    intro l hnd h
+    have h1 : (l.filter (· != n)).length ≤ n := by
+      apply ih _ (hnd.filter _)
+      intro x hx
+      have := List.mem_filter.mp hx
+      have hxn : x ≠ n := by simpa using this.2
+      have := h x this.1
+      omega
+    have h2 : (l.filter (· == n)).length ≤ 1 := by
+      have : ∀ l : List Nat, l.Nodup → (l.filter (· == n)).length ≤ 1 := by
+        intro l
+        induction l with
+        | nil => intro _; simp
+        | cons y r ihr =>
+          intro hnd
+          have hnd' := List.nodup_cons.mp hnd
+          by_cases hy : y = n
+          · subst hy
+            have : r.filter (· == y) = [] := by
+              rw [List.filter_eq_nil_iff]; intro z hz hzy
+              have : z = y := by simpa using hzy
+              exact hnd'.1 (this ▸ hz)
+            simp [List.filter_cons, this]
+          · have : (y == n) = false := by simpa using hy
+            simp only [List.filter_cons, this]
+            exact ihr hnd'.2
+      exact this l hnd
+    have h3 : ∀ l : List Nat, l.length = (l.filter (· == n)).length + (l.filter (· != n)).length := by
+      intro l
+      induction l with
+      | nil => rfl
+      | cons y r ihr =>
+        by_cases hy : y = n
+        · subst hy; simp [List.filter_cons]; omega
+        · have e1 : (y == n) = false := by simpa using hy
+          have e2 : (y != n) = true := by simpa using hy
+          simp only [List.filter_cons, e1, e2, List.length_cons]; simp; omega
+    have := h3 l
+    omega
+
+/-- the first `m` nodes of the walk from `p` -/
+def nodes (parents : List (Option Nat)) (p : Nat) (m : Nat) : List Nat :=
+  (List.range m).filterMap fun i => walk parents i p
+
+/-- **on a forest every chain ends within `length + 1` steps** -/
+theorem forest_bound (parents : List (Option Nat)) (hF : Forest parents) (p : Nat) :
+    ends parents (parents.length + 1) p = true := by
+  rw [ends_eq_walk]
+  cases hw : walk parents (parents.length + 1) p with
+  | none => rfl
+  | some y =>
+    exfalso
+    -- all of walk 0 … walk n are defined, have successors, and are pairwise distinct
+    have hdef : ∀ i, i ≤ parents.length + 1 → ∃ x, walk parents i p = some x := by
+      intro i hi
+      cases hx : walk parents i p with
+      | some x => exact ⟨x, rfl⟩
+      | none =>
+        have := walk_none_mono parents i (parents.length + 1 - i) p hx
+        have e : i + (parents.length + 1 - i) = parents.length + 1 := by omega
+        rw [e, hw] at this; cases this
+    have hsucc : ∀ i x, i ≤ parents.length → walk parents i p = some x → x < parents.length := by
+      intro i x hi hx
+      obtain ⟨z, hz⟩ := hdef (i + 1) (by omega)
+      rw [walk_add, hx] at hz
+      simp only [Option.bind_some, walk] at hz
+      cases hq : parents.getD x none with
+      | none => rw [hq] at hz; cases hz
+      | some q => exact lt_length_of_getD_some parents x q hq
+    have hdist : ∀ i j x, i < j → j ≤ parents.length → walk parents i p = some x → walk parents j p = some x → False := by
+      intro i j x hij hj hi hjx
+      have e : j = i + (j - i) := by omega
+      rw [e, walk_add, hi] at hjx
+      simp only [Option.bind_some] at hjx
+      obtain ⟨k, hk⟩ := hF x
+      exact no_cycle_of_ends parents k (j - i) x hk (by omega) hjx
+    -- the first n+1 nodes are pairwise distinct numbers below n
+    let f : Nat → Nat := fun i => (walk parents i p).getD 0
+    have hf : ∀ i, i ≤ parents.length → walk parents i p = some (f i) := by
+      intro i hi
+      obtain ⟨x, hx⟩ := hdef i (by omega)
+      simp [f, hx]
+    have hpw : (List.range (parents.length + 1)).Pairwise (fun a b => f a ≠ f b) := by
+      refine List.Pairwise.imp_of_mem ?_ (List.pairwise_lt_range (n := parents.length + 1))
+      intro a b ha hb hab hfab
+      have ha' : a ≤ parents.length := by have := List.mem_range.mp ha; omega
+      have hb' : b ≤ parents.length := by have := List.mem_range.mp hb; omega
+      have h1 := hf a ha'
+      have h2 := hf b hb'
+      rw [← hfab] at h2
+      exact hdist a b (f a) hab hb' h1 h2
+    have hnd : ((List.range (parents.length + 1)).map f).Nodup := by
+      unfold List.Nodup
+      rw [List.pairwise_map]
+      exact hpw
+    have hlt : ∀ x ∈ (List.range (parents.length + 1)).map f, x < parents.length := by
+      intro x hx
+      obtain ⟨i, hi, rfl⟩ := List.mem_map.mp hx
+      have hi' : i ≤ parents.length := by have := List.mem_range.mp hi; omega
+      exact hsucc i (f i) hi' (hf i hi')
+    have := length_le_of_nodup_lt parents.length _ hnd hlt
+    simp only [List.length_map, List.length_range] at this
+    omega
+
+
+/-- once the chain from `p` has ended, more fuel changes nothing -/
+theorem reaches_fuel_irrelevant (parents : List (Option Nat)) (t : Nat) (k : Nat) :
+    ∀ (p f : Nat), ends parents k p = true → k ≤ f → reaches parents t f p = reaches parents t k p := by
+  induction k with
+  | zero => intro p f h; simp [ends] at h
+  | succ k ih =>
+    intro p f h hf
+    obtain ⟨f', rfl⟩ : ∃ f', f = f' + 1 := ⟨f - 1, by omega⟩
+    unfold reaches
+    split
+    · rfl
+    · unfold ends at h
+      cases hq : parents.getD p none with
+      | none => rfl
+      | some q =>
+        simp only [hq] at h ⊢
+        exact ih q f' h (by omega)
+
+/-- the linking pass with an arbitrary amount of fuel for the cycle check -/
+def linkParentsWith (fuel : Nat) (ids : List Str) (parentIds : List Str) : List (Option Nat) :=
+  (List.range ids.length).foldl (fun parents i =>
+    let pid := parentIds.getD i []
+    if pid == [] then parents
+    else match findLastIdx ids (fun x => x == pid) with
+      | none => parents
+      | some p => if reaches parents i fuel p then parents else parents.set i (some p))
+    (List.replicate ids.length none)
+
+theorem linkParents_eq_with (ids parentIds : List Str) : linkParents ids parentIds = linkParentsWith (ids.length + 1) ids parentIds := rfl
+
+theorem linkFold_fuel (ids parentIds : List Str) (fuel : Nat) (hfuel : ids.length + 1 ≤ fuel) (rest : List Nat) (parents : List (Option Nat))
+    (hF : Forest parents) (hroots : ∀ j ∈ rest, parents.getD j none = none) (hnd : rest.Nodup) (hlen : parents.length = ids.length) :
+    rest.foldl (fun parents i =>
+      let pid := parentIds.getD i []
+      if pid == [] then parents
+      else match findLastIdx ids (fun x => x == pid) with
+        | none => parents
+        | some p => if reaches parents i fuel p then parents else parents.set i (some p)) parents
+    = rest.foldl (fun parents i =>
+      let pid := parentIds.getD i []
+      if pid == [] then parents
+      else match findLastIdx ids (fun x => x == pid) with
+        | none => parents
+        | some p => if reaches parents i (ids.length + 1) p then parents else parents.set i (some p)) parents := by
+  induction rest generalizing parents with
+  | nil => rfl
+  | cons i r ih =>
+    simp only [List.foldl_cons]
+    have hnd' := List.nodup_cons.mp hnd
+    -- the two steps agree on this state
+    have hstep : ∀ p, reaches parents i fuel p = reaches parents i (ids.length + 1) p := by
+      intro p
+      have hb := forest_bound parents hF p
+      rw [hlen] at hb
+      exact reaches_fuel_irrelevant parents i (ids.length + 1) p fuel hb hfuel
+    have hsame : (let pid := parentIds.getD i []
+        if pid == [] then parents
+        else match findLastIdx ids (fun x => x == pid) with
+          | none => parents
+          | some p => if reaches parents i fuel p then parents else parents.set i (some p))
+      = (let pid := parentIds.getD i []
+        if pid == [] then parents
+        else match findLastIdx ids (fun x => x == pid) with
+          | none => parents
+          | some p => if reaches parents i (ids.length + 1) p then parents else parents.set i (some p)) := by
+      simp only
+      split
+      · rfl
+      · split
+        · rfl
+        · rw [hstep]
+    rw [hsame]
+    apply ih
+    · dsimp only
+      split
+      · exact hF
+      · split
+        · exact hF
+        · split
+          · exact hF
+          · rename_i hr
+            exact forest_set parents i _ _ hF (hroots i (by simp)) (by simpa using hr)
+    · intro j hj
+      have hji : j ≠ i := fun e => hnd'.1 (e ▸ hj)
+      dsimp only
+      split
+      · exact hroots j (by simp [hj])
+      · split
+        · exact hroots j (by simp [hj])
+        · split
+          · exact hroots j (by simp [hj])
+          · rw [getD_set_ne _ _ _ _ hji]; exact hroots j (by simp [hj])
+    · exact hnd'.2
+    · dsimp only
+      split
+      · exact hlen
+      · split
+        · exact hlen
+        · split
+          · exact hlen
+          · simp [hlen]
+
+/-- **the fuel of the model's cycle check is never exhausted**: with any larger amount of fuel the
+    linking pass produces the same links, so the model's bounded walk and an unbounded one (Go's
+    loop, which terminates because the links set so far form a forest) decide every candidate link
+    alike -/
+theorem C03_fuel_irrelevant (ids parentIds : List Str) (fuel : Nat) (h : ids.length + 1 ≤ fuel) :
+    linkParentsWith fuel ids parentIds = linkParents ids parentIds := by
+  rw [linkParents_eq_with]
+  unfold linkParentsWith
+  apply linkFold_fuel ids parentIds fuel h
+  · intro i
+    refine ⟨1, ?_⟩
+    unfold ends
+    have : (List.replicate ids.length (none : Option Nat)).getD i none = none := by
+      simp only [List.getD_eq_getElem?_getD, List.getElem?_replicate]
+      split <;> rfl
+    rw [this]
+  · intro j _
+    simp only [List.getD_eq_getElem?_getD, List.getElem?_replicate]
+    split <;> rfl
+  · exact List.nodup_range
+  · simp
+
 end Gtfs.Static
